@@ -1,6 +1,7 @@
 import Proofs.C19Parse
 import Proofs.C19Bits
 import Proofs.C19Time
+import Proofs.C19Decode
 /-!
 # C19 — UUIDs parse, print and carry time faithfully; generated time-UUIDs are unique (property theorems)
 
@@ -140,6 +141,249 @@ theorem C19_min_max_bound_time (sec : Int) (nsec : Nat) (hr : Representable sec 
 
 /-- a signed-byte order is needed: 0x80 sorts below 0x7f here (non-vacuity of the "signed" part) -/
 example : Spec.sLexLe [0x80] [0x7f] = true ∧ Spec.sLexLe [0x7f] [0x80] = false := by decide
+
+/-! ## The decoding entry points and the DESTINATION they are called on
+Model: `Model/UuidDecode.lean` — `ParseUUID` as written (every digit OR-ed into an array), `UnmarshalText`,
+`UnmarshalJSON`, the CQL `unmarshalUUID`, each as a function (destination before, input) ↦ (err == nil, destination
+after).  The harness ops `utext`, `ujson`, `jsonu`, `ucql`, `useq`, `rtdirty` run the real functions on destinations
+that already hold a value; the model's answers are fixed by the theorems below. -/
+
+/-- `ParseUUID` as the code has it — `var u UUID` (zero) and `u[j/2] |= byte(nib) << uint(4-j&1*4)` per digit —
+    computes exactly `parse`, whose language and value `C19_parse_exact` characterises. -/
+theorem C19_parseUUID_eq_parse (s : List Char) : parseUUID s = parse s := parseUUID_eq_parse s
+
+/-- The loop's invariant for an ARBITRARY initial content of the array: the digits are merged (bitwise OR) into
+    what is already there.  The result is the parsed value only because `ParseUUID` starts from a fresh zero
+    array; running the same loop directly on a destination that holds a value yields old|new
+    (`C19_cex_parse_into_dirty`). -/
+theorem C19_parse_into_or (dst : List UInt8) (h : dst.length = 16) (s : List Char) :
+    parseLoopArr s dst 0 = (parse s).map (orBytes dst) := parseLoopArr_or dst h s
+
+theorem C19_cex_parse_into_dirty :
+    parseLoopArr "00000000-0000-0000-0000-000000000001".toList (List.replicate 16 0x80) 0 ≠
+      parse "00000000-0000-0000-0000-000000000001".toList := by decide
+
+/-- `UnmarshalText`, for every destination content and every byte string: success exactly on the accepted
+    language, the destination then IS the parsed value; on an error the destination is the zero UUID
+    (`*u, err = ParseUUID(..)` assigns the `UUID{}` that `ParseUUID` returns with an error). -/
+theorem C19_unmarshal_text_spec (dst text : List UInt8) :
+    unmarshalText dst text = match parse (runes text) with
+      | some u => (true, u)
+      | none => (false, zero16) := by
+  simp only [unmarshalText, parseUUID_eq_parse]
+  rfl
+
+/-- `UnmarshalJSON`, for every destination content and every byte string: all leading/trailing `"` trimmed, more
+    than 36 remaining bytes → error, then the text parser; the destination is written only on success and then
+    IS the parsed value; on an error it is untouched. -/
+theorem C19_unmarshal_json_spec (dst data : List UInt8) :
+    unmarshalJSON dst data =
+      if (trimQuotes data).length > 36 then (false, dst)
+      else match parse (runes (trimQuotes data)) with
+        | some u => (true, u)
+        | none => (false, dst) := by
+  simp only [unmarshalJSON, parseUUID_eq_parse]
+  rfl
+
+/-- The CQL decoder: a 16-byte column value overwrites the destination (`*UUID`, `*[16]byte`, `*[]byte`: the
+    bytes; `*string`: the canonical text), a null/empty value sets the zero value (`*[16]byte`: error), any other
+    length is an error that leaves the destination untouched — whatever the destination held. -/
+theorem C19_cql_unmarshal_spec (data : List UInt8) :
+    (data.length = 16 → ∀ p, unmarshalCQL data (.uuid p) = (true, .uuid data) ∧
+        unmarshalCQL data (.arr p) = (true, .arr data) ∧
+        (∀ q, unmarshalCQL data (.bytes q) = (true, .bytes (some data))) ∧
+        unmarshalCQL data (.str p) = (true, .str (asciiBytes (print data)))) ∧
+    (data.length = 0 → ∀ p, unmarshalCQL data (.uuid p) = (true, .uuid zero16) ∧
+        unmarshalCQL data (.arr p) = (false, .arr p) ∧
+        (∀ q, unmarshalCQL data (.bytes q) = (true, .bytes none)) ∧
+        unmarshalCQL data (.str p) = (true, .str [])) ∧
+    (data.length ≠ 0 → data.length ≠ 16 → ∀ d, unmarshalCQL data d = (false, d)) := by
+  refine ⟨fun h p => ?_, fun h p => ?_, fun h0 h16 d => ?_⟩
+  · simp [unmarshalCQL, h]
+  · simp [unmarshalCQL, h]
+  · simp [unmarshalCQL, h0, h16]
+
+theorem applyStep_cql (dst data : List UInt8) :
+    applyStep dst (.cql data) =
+      if data.length = 0 then (true, zero16) else if data.length ≠ 16 then (false, dst) else (true, data) := by
+  by_cases h0 : data.length = 0
+  · simp [applyStep, unmarshalCQL, h0]
+  · by_cases h16 : data.length = 16
+    · simp [applyStep, unmarshalCQL, h16]
+    · simp [applyStep, unmarshalCQL, h0, h16]
+
+/-- `C19_decode_independent_of_destination`: what a decode does never depends on what the destination held:
+    the status is the same for any two destination contents, and after a SUCCESSFUL decode the destination is
+    the same value (by the `_spec` theorems: the parsed value / the column bytes) — for `UnmarshalText`,
+    `UnmarshalJSON` and the CQL decode into `*UUID`. -/
+theorem C19_decode_independent_of_destination (d1 d2 : List UInt8) (s : Step) :
+    (applyStep d1 s).1 = (applyStep d2 s).1 ∧
+    ((applyStep d1 s).1 = true → (applyStep d1 s).2 = (applyStep d2 s).2) := by
+  cases s with
+  | text t => simp [applyStep, unmarshalText]
+  | json d =>
+    simp only [applyStep, unmarshalJSON]
+    split
+    · simp
+    · split <;> simp
+  | cql d =>
+    rw [applyStep_cql, applyStep_cql]
+    split
+    · simp
+    · split <;> simp
+
+/-- what a FAILED decode leaves: `UnmarshalText` the zero UUID, `UnmarshalJSON` and the CQL decode the old value -/
+theorem C19_decode_failed_destination (dst : List UInt8) (s : Step) (h : (applyStep dst s).1 = false) :
+    (applyStep dst s).2 = match s with
+      | .text _ => zero16
+      | .json _ => dst
+      | .cql _ => dst := by
+  cases s with
+  | text t =>
+    simp only [applyStep, unmarshalText] at h ⊢
+    split at h <;> simp_all
+  | json d =>
+    simp only [applyStep, unmarshalJSON] at h ⊢
+    split
+    · rfl
+    · cases hp : parseUUID (runes (trimQuotes d)) <;> simp_all
+  | cql d =>
+    rw [applyStep_cql] at h ⊢
+    split at h
+    · simp at h
+    · split at h <;> simp_all
+
+/-- a successful text / JSON decode stores the parsed value of the (trimmed) text -/
+theorem C19_decode_success_is_parse (dst : List UInt8) :
+    (∀ t, (unmarshalText dst t).1 = true → parse (runes t) = some (unmarshalText dst t).2) ∧
+    (∀ d, (unmarshalJSON dst d).1 = true → parse (runes (trimQuotes d)) = some (unmarshalJSON dst d).2) := by
+  constructor
+  · intro t h
+    rw [C19_unmarshal_text_spec] at h ⊢
+    split at h <;> simp_all
+  · intro d h
+    rw [C19_unmarshal_json_spec] at h ⊢
+    by_cases hlen : (trimQuotes d).length > 36
+    · simp [hlen] at h
+    · simp only [hlen, if_false] at h ⊢
+      cases hp : parse (runes (trimQuotes d)) <;> simp_all
+
+/-- Sequences on ONE destination (decode a, then b, then an invalid text, then c, …): whenever the last step
+    succeeds, the destination afterwards is what that step alone gives on ANY destination — nothing of the
+    history (earlier values, failed decodes) survives. -/
+theorem C19_decode_seq_last_wins (dst d' : List UInt8) (ss : List Step) (s : Step)
+    (h : (applyStep d' s).1 = true) : finalDst dst (ss ++ [s]) = (applyStep d' s).2 := by
+  simp only [finalDst, List.foldl_append, List.foldl_cons, List.foldl_nil]
+  have := C19_decode_independent_of_destination d' (List.foldl (fun d s => (applyStep d s).2) dst ss) s
+  exact (this.2 h).symm
+
+/-- `runSeq` (what the `useq` op prints) ends in the destination `finalDst` -/
+theorem C19_runSeq_final (ss : List Step) : ∀ (dst : List UInt8),
+    ((runSeq dst ss).getLast?.map (·.2)).getD dst = finalDst dst ss := by
+  induction ss with
+  | nil => intro dst; rfl
+  | cons s ss ih =>
+    intro dst
+    have := ih (applyStep dst s).2
+    simp only [runSeq, finalDst, List.foldl_cons] at this ⊢
+    rw [← this]
+    cases h : runSeq (applyStep dst s).2 ss with
+    | nil => simp
+    | cons a b =>
+      obtain ⟨x, hx⟩ : ∃ x, (a :: b).getLast? = some x := ⟨_, List.getLast?_eq_some_getLast (by simp)⟩
+      simp [List.getLast?_cons_cons, hx]
+
+/-- The print/parse round trip through every pair of printer and decoder holds on a DIRTY destination:
+    `String()` = `MarshalText()` → `UnmarshalText` / `UnmarshalJSON` (bare), `MarshalJSON()` (quoted) →
+    `UnmarshalJSON`, the CQL `*string` → `ParseUUID`/`marshalUUID(string)`, whatever the destination held. -/
+theorem C19_roundtrip_dirty (dst u : List UInt8) (h : u.length = 16) :
+    unmarshalText dst (asciiBytes (print u)) = (true, u) ∧
+    unmarshalJSON dst (34 :: asciiBytes (print u) ++ [34]) = (true, u) ∧
+    unmarshalJSON dst (asciiBytes (print u)) = (true, u) ∧
+    (∀ p, unmarshalCQL u (.str p) = (true, .str (asciiBytes (print u)))) ∧
+    marshalCQL (.str (asciiBytes (print u))) = some u := by
+  obtain ⟨hne, hh, hl, hlen⟩ := print_bytes_facts u h
+  obtain ⟨t1, t2⟩ := trimQuotes_quoted _ hne hh hl
+  refine ⟨?_, ?_, ?_, ?_, ?_⟩
+  · rw [C19_unmarshal_text_spec, runes_print, parse_print u h]
+  · rw [C19_unmarshal_json_spec, t1, runes_print, parse_print u h, hlen]; simp
+  · rw [C19_unmarshal_json_spec, t2, runes_print, parse_print u h, hlen]; simp
+  · intro p; simp [unmarshalCQL, h]
+  · simp only [marshalCQL, parseUUID_eq_parse, runes_print, parse_print u h]
+
+/-- The same JSON key twice (`{"id":A,"id":B}`): encoding/json decodes both into the SAME field; if all
+    occurrences decode, the field holds the parsed value of the LAST one, whatever it held before and whatever
+    the earlier occurrences were. -/
+theorem C19_json_dup_keys_last_wins (ls : List (List UInt8)) : ∀ (dst : List UInt8) (l : List UInt8),
+    (jsonCalls dst (ls ++ [l])).1 = true →
+    parse (runes (trimQuotes l)) = some (jsonCalls dst (ls ++ [l])).2 := by
+  induction ls with
+  | nil =>
+    intro dst l h
+    simp only [List.nil_append, jsonCalls] at h ⊢
+    split at h
+    · rename_i h1
+      simp only [jsonCalls] at h ⊢
+      rw [if_pos h1]
+      exact (C19_decode_success_is_parse dst).2 l h1
+    · rename_i h1
+      simp [h1] at h
+  | cons a ls ih =>
+    intro dst l h
+    simp only [List.cons_append, jsonCalls] at h ⊢
+    split
+    · rename_i h1
+      rw [if_pos h1] at h
+      exact ih _ l h
+    · rename_i h1
+      rw [if_neg h1] at h
+      exact absurd h h1
+
+/-- CQL marshal → unmarshal through every pair of value kind and destination kind, on a dirty destination:
+    `marshalUUID` of a UUID / [16]byte / 16-byte []byte / canonical string is the 16 bytes, and `unmarshalUUID`
+    of those stores them (as the canonical text for `*string`) whatever the destination held. -/
+theorem C19_cql_marshal_unmarshal (u : List UInt8) (h : u.length = 16) :
+    marshalCQL (.uuid u) = some u ∧ marshalCQL (.arr u) = some u ∧ marshalCQL (.bytes (some u)) = some u ∧
+    marshalCQL (.str (asciiBytes (print u))) = some u ∧
+    (∀ b, b.length ≠ 16 → marshalCQL (.bytes (some b)) = none) ∧
+    (∀ p, unmarshalCQL u (.uuid p) = (true, .uuid u) ∧ unmarshalCQL u (.arr p) = (true, .arr u) ∧
+          unmarshalCQL u (.str p) = (true, .str (asciiBytes (print u)))) ∧
+    (∀ q, unmarshalCQL u (.bytes q) = (true, .bytes (some u))) := by
+  refine ⟨rfl, rfl, by simp [marshalCQL, h], (C19_roundtrip_dirty [] u h).2.2.2.2, ?_, ?_, ?_⟩
+  · intro b hb; simp [marshalCQL, hb]
+  · intro p; simp [unmarshalCQL, h]
+  · intro q; simp [unmarshalCQL, h]
+
+/-- A timeuuid column read into a `*time.Time`: for every representable instant, the time-UUID built from it
+    (any clock, any node) decodes to that instant truncated to 100 ns, whatever the destination held; anything
+    that is not a 16-byte version-1 value (also a null) is an error that leaves the destination untouched. -/
+theorem C19_cql_time_destination (sec : Int) (nsec clk : Nat) (nd : List UInt8) (h : Representable sec nsec)
+    (prev : Int × Nat) :
+    unmarshalCQLTime true (timeUUIDWith (bits64 (getTimestamp sec nsec)) clk nd) prev = (true, (sec, nsec / 100 * 100)) ∧
+    (∀ data, data.length ≠ 16 → unmarshalCQLTime true data prev = (false, prev)) ∧
+    (∀ data, version data ≠ 1 → unmarshalCQLTime true data prev = (false, prev)) ∧
+    (∀ data, unmarshalCQLTime false data prev = (false, prev)) := by
+  refine ⟨?_, ?_, ?_, ?_⟩
+  · simp only [unmarshalCQLTime, with_length, time_roundtrip sec nsec clk nd h]
+    simp
+  · intro data hd; simp [unmarshalCQLTime, hd]
+  · intro data hv
+    simp only [unmarshalCQLTime, time, hv]
+    split <;> simp
+  · intro data; simp [unmarshalCQLTime]
+
+/-- non-vacuity, and two things worth knowing about `UnmarshalJSON`: (1) it is STRICTER than `ParseUUID` on long
+    texts (more than 4 extra hyphens → error); (2) it never looks at the JSON token kind: a 32-digit JSON NUMBER
+    (also negative, also with an exponent letter, `e` being a hex digit) decodes as a UUID. -/
+example : unmarshalText (List.replicate 16 0xff) (asciiBytes "00112233-4455-6677-8899-aabbccddeeff".toList) =
+    (true, [0x00,0x11,0x22,0x33,0x44,0x55,0x66,0x77,0x88,0x99,0xaa,0xbb,0xcc,0xdd,0xee,0xff]) := by decide
+example : unmarshalText (List.replicate 16 0xff) (asciiBytes "00112233-4455-6677-8899-aabbccddeefg".toList) =
+    (false, zero16) := by decide
+example : unmarshalJSON (List.replicate 16 0xff) (asciiBytes "\"\"00112233-4455-6677-8899-aabbccddeefg\"".toList) =
+    (false, List.replicate 16 0xff) := by decide
+example : (unmarshalJSON zero16 (asciiBytes "-12345678901234567890123456789e12".toList)).1 = true := by decide
+example : (parse "--00-11-22-33445566778899AABBCCDDEEFF----".toList).isSome = true ∧
+    (unmarshalJSON zero16 (asciiBytes "--00-11-22-33445566778899AABBCCDDEEFF----".toList)).1 = false := by decide
 
 /-- FULL STATEMENT (not provable, and false for the unchanged code and for any RFC 4122 v1 generator with a
     14-bit clock sequence): "time-UUIDs generated concurrently from the current time in one process are pairwise
